@@ -171,7 +171,7 @@ class World:
         key = self.vkey(ev["vk"]) if "vk" in ev else None
         pos = self.pos[ev["lp"]] if ev.get("lp") else None
         amt = {k: dec(ev[k]) for k in ("dep", "mint", "rate", "a", "b", "w") if k in ev}
-        if op not in ("odm", "rate", "deposit", "bw", "lpdep", "lpwd", "update", "liq", "spend"):
+        if op not in ("odm", "rate", "deposit", "bw", "lpdep", "lpwd", "update", "liq", "spend", "lbuy", "lsell"):
             raise ValueError(op)
         try:
             if op == "odm":
@@ -194,6 +194,10 @@ class World:
                 sm.liquidate(key)
             elif op == "spend":
                 self.broker.subtract_from_balance(self.osqth, amt["a"])
+            elif op == "lbuy":
+                sm.buy_squeeth(osqth_amount=amt["a"])
+            elif op == "lsell":
+                sm.sell_squeeth(osqth_amount=amt["a"])
             return "ok", None, None
         except Exception as e:  # any exception = rejection (class/message recorded, never compared)
             return "reject", None, f"{type(e).__name__}: {e}"
@@ -1214,7 +1218,8 @@ def replay(chk: Check, path: str) -> int:
 # it never calls chk.finish).  Squeeth market + its WETH/oSQTH Uniswap pool under ONE broker whose quote token is a
 # USD stable coin: the pool's quote token (WETH) differs from the account's, Squeeth reports USD.
 # ===============================================================================================================
-ENTRY.update({"liq": "SqueethMarket.liquidate", "spend": "Broker.subtract_from_balance"})
+ENTRY.update({"liq": "SqueethMarket.liquidate", "spend": "Broker.subtract_from_balance", "lbuy": "SqueethMarket.buy_squeeth",
+              "lsell": "SqueethMarket.sell_squeeth"})
 DUST = Fraction(1, 10 ** 5)
 
 
